@@ -72,6 +72,7 @@ fn strings_db(rows: u32) -> AbsDb {
         with_validation: true,
         summary: SummarySpec { values: MSummary { codepage: 65001, title: Some("t".into()), ..MSummary::default() }, version: 0, header_gap: 0, gaps: vec![], reverse_values: false, trailing: 0, rotate: 0 },
         streams: vec![],
+        stale_validation: false,
     }
 }
 
